@@ -592,6 +592,10 @@ void ComplexVisitor::bvisit(const Add &x)
 
 void ComplexVisitor::bvisit(const Mul &x)
 {
+    // the numeric coefficient can be oo, zoo or nan
+    x.get_coef()->accept(*this);
+    if (not is_true(is_complex_))
+        return;
     tribool b = tribool::tritrue;
     for (const auto &p : x.get_dict()) {
         this->check_power(*p.first, *p.second);
